@@ -359,8 +359,10 @@ def r172(eng, rep, reach) -> None:
     # class-level mutable attributes on classes used on generate paths
     for ci in prog.classes.values():
         for st in ci.node.body:
-            if isinstance(st, ast.Assign) and isinstance(st.value, (ast.Dict, ast.List, ast.Set)) and any(m.qual in reach for m in ci.methods.values()):
-                name = st.targets[0].id if isinstance(st.targets[0], ast.Name) else None
+            is_mut = lambda v: isinstance(v, (ast.Dict, ast.List, ast.Set)) or (isinstance(v, ast.Call) and (dotted(v.func) or "").split(".")[-1] in ("dict", "list", "set", "defaultdict", "OrderedDict", "Counter"))
+            if isinstance(st, (ast.Assign, ast.AnnAssign)) and st.value is not None and is_mut(st.value) and any(m.qual in reach for m in ci.methods.values()):
+                tgt0 = st.targets[0] if isinstance(st, ast.Assign) else st.target
+                name = tgt0.id if isinstance(tgt0, ast.Name) else None
                 if name and any(kind in ("mutcall", "sub-store", "aug") and norm(t).startswith(("self.%s" % name, "cls.%s" % name, "%s.%s" % (ci.name, name))) for m in ci.methods.values() for kind, t, s_ in stores_in(m.node)):
                     rep.violation("R17.2", ci.file, ci.qual, norm(st, 50), "class-level mutable attribute is mutated by instances: shared across all generations in the process")
 
